@@ -369,6 +369,94 @@ fn slash_handle_probe(args: &Args, out: &Mutex<Out>) {
     let _ = std::fs::remove_dir_all(&dir);
 }
 
+/// Renewal with objects that really are inside their re-issue margin. The clock cannot be moved, so time is made
+/// to pass for chosen objects instead: on disk storage a snapshot of every CA is written, the validity of chosen
+/// ROAs (simple and aggregated) and ASPAs inside the snapshots is moved to two weeks from now (margins: 4 / 3 / 2
+/// weeks), the instance is restarted from those snapshots, and a renewal run is observed like any other operation:
+/// the model must predict exactly the objects the implementation re-issues.
+fn renewal_probe(args: &Args, out: &Mutex<Out>) {
+    use krill::commons::eventsourcing::AggregateStore;
+    use krill::server::ca::CertAuth;
+    let dir = args.out.join("renewal");
+    let mut opts = SysOpts::new(&dir);
+    opts.disk = true;
+    opts.extra_toml = "timing_roa_valid_weeks = 5\ntiming_roa_reissue_weeks_before = 4\ntiming_aspa_valid_weeks = 5\ntiming_aspa_reissue_weeks_before = 3\ntiming_bgpsec_valid_weeks = 5\ntiming_bgpsec_reissue_weeks_before = 2\nroa_aggregate_threshold = 3\nroa_deaggregate_threshold = 2".into();
+    let hist = 2; // the timing configuration emit_cases associates with hist % 3 == 2
+    let mut it = Interner::default();
+    {
+        let sys = Sys::open(opts.clone());
+        if sys.bootstrap().is_err() { return }
+        for (i, step) in setup_steps_with(false).iter().enumerate() {
+            let before = snapshot(&sys);
+            let _ = step(&sys);
+            let after = snapshot(&sys);
+            emit_cases(&sys, &mut it, &before, &after, &json!({"op": "setup", "step": i, "probe": "renewal"}), None, hist, out);
+        }
+        let steps: Vec<(&str, Box<dyn Fn(&Sys) -> Result<(), String>>)> = vec![
+            // b: two simple ROAs and an ASPA; a: five ROAs of two origins (above the aggregation threshold of 3)
+            ("roa_add", Box::new(|s| s.routes_update("b", &["10.0.0.0/24 => 64512", "10.1.0.0/24 => 64513"], &[]).map_err(|e| e.to_string()))),
+            ("aspa_add", Box::new(|s| s.aspas_update("b", &["AS64512 => AS64600, AS64601"], &[]).map_err(|e| e.to_string()))),
+            ("roa_add", Box::new(|s| s.routes_update("a", &["10.4.0.0/24 => 64516", "10.4.1.0/24 => 64516", "10.4.2.0/24 => 64516", "10.5.0.0/24 => 64517", "10.5.1.0/24 => 64517"], &[]).map_err(|e| e.to_string()))),
+        ];
+        for (name, step) in steps {
+            let before = snapshot(&sys);
+            let _ = step(&sys);
+            let after = snapshot(&sys);
+            emit_cases(&sys, &mut it, &before, &after, &json!({"op": name, "probe": "renewal"}), None, hist, out);
+        }
+        // snapshots of every CA
+        if let Ok(store) = AggregateStore::<CertAuth>::create(sys.krill.storage(), CASERVER_NS, false) { let _ = store.update_snapshots(); }
+    }
+    // "two weeks later" for chosen objects: edit the snapshots
+    let soon = chrono::Utc::now() + chrono::Duration::weeks(2);
+    let mut aged = 0u64;
+    {
+        let storage = krill::commons::storage::StorageSystem::new_disk(dir.join("data"));
+        let store = storage.open(CASERVER_NS).unwrap();
+        for h in ["a", "b"] {
+            let scope = Ident::boxed_from_string(h.to_string()).unwrap();
+            let key = Ident::boxed_from_string("snapshot.json".to_string()).unwrap();
+            let Ok(Some(mut snap)) = store.get::<Value>(Some(&scope), &key) else { continue };
+            if let Some(Value::Object(classes)) = snap.get_mut("resources") {
+                for rc in classes.values_mut() {
+                    for (sect, sub) in [("roas", "simple"), ("roas", "aggregate"), ("aspas", "")] {
+                        let map = if sub.is_empty() { rc.get_mut(sect) } else { rc.get_mut(sect).and_then(|r| r.get_mut(sub)) };
+                        if let Some(Value::Object(m)) = map {
+                            // every second object of the section, starting with the first
+                            for (i, info) in m.values_mut().enumerate() {
+                                if i % 2 != 0 { continue }
+                                let na = &mut info["validity"]["not_after"];
+                                if na.is_string() { *na = json!(soon.to_rfc3339_opts(chrono::SecondsFormat::Secs, true)); aged += 1; }
+                                else if na.is_number() { *na = json!(soon.timestamp()); aged += 1; }
+                            }
+                        }
+                    }
+                }
+            }
+            store.store(Some(&scope), &key, &snap).unwrap();
+        }
+    }
+    // restart from the snapshots and renew
+    let sys = Sys::open(opts.clone());
+    let before = snapshot(&sys);
+    let res = sys.renew();
+    let after = snapshot(&sys);
+    {
+        let mut o = out.lock().unwrap();
+        *o.op_hist.entry(format!("renewal_probe:aged_objects={aged}")).or_default() += 1;
+        if aged == 0 { o.impl_failures.push(json!({"index": null, "class": {"harness": "renewal_probe"}, "what": "renewal probe could not age any object (snapshot layout changed?)"})); }
+        if let Err(e) = &res { *o.err_hist.entry(e.to_string().chars().take(160).collect()).or_default() += 1; }
+    }
+    emit_cases(&sys, &mut it, &before, &after, &json!({"op": "renew", "probe": "renewal", "aged_objects": aged}), None, hist, out);
+    // a second run finds nothing due any more
+    let before = snapshot(&sys);
+    let _ = sys.renew();
+    let after = snapshot(&sys);
+    emit_cases(&sys, &mut it, &before, &after, &json!({"op": "renew", "probe": "renewal", "second_run": true}), None, hist, out);
+    drop(sys);
+    let _ = std::fs::remove_dir_all(&dir);
+}
+
 fn main() {
     let args = Args::parse("cacore");
     let n_hist = args.get_u64("histories", if args.thorough() { 64 } else { 8 });
@@ -399,6 +487,7 @@ fn main() {
         }
     });
     if args.get_u64("slash", 0) == 1 { slash_handle_probe(&args, &out); }
+    if evals.contains("c14_ok") || args.get_u64("renewal", 0) == 1 { renewal_probe(&args, &out); }
     let mut o = out.into_inner().unwrap();
     o.w.flush();
     write_json(&args.out.join("stats.json"), &json!({
